@@ -14,7 +14,10 @@
 
 package ast
 
-import "math"
+import (
+	"fmt"
+	"math"
+)
 
 // NewSalience create new Salience AST object
 func NewSalience(val int) *Salience {
@@ -27,6 +30,8 @@ func NewSalience(val int) *Salience {
 // Salience is a simple AST object that stores salience
 type Salience struct {
 	SalienceValue int
+	// Err is set when the salience literal could not be accepted.
+	Err error
 }
 
 // SalienceReceiver must be implemented by any AST object that stores salience
@@ -39,6 +44,6 @@ func (sal *Salience) AcceptIntegerLiteral(lit *IntegerLiteral) {
 	if lit.Integer >= math.MinInt32 && lit.Integer <= math.MaxInt32 {
 		sal.SalienceValue = int(lit.Integer)
 	} else {
-		panic("Salience value out of range")
+		sal.Err = fmt.Errorf("salience value %d is out of range", lit.Integer)
 	}
 }
